@@ -394,3 +394,5 @@ _share("C03", "records_fold_step", "C09")
 _share("C03", "records_reverse", "C09")
 _share("C15", "load_in_memory_count", "C09")
 PROPS["C10"]["mir"].append(ob("bloom_merge_sound", "ob_bloom", "bloom_merge_sound"))
+# the blob-header acceptance predicate (exactly magic + version) is what init's classification of a damaged first block rests on
+PROPS["C06"]["kani"].append([h for h in PROPS["C17"]["kani"] if h.name == "c17_blob_header_layout_and_validation"][0])
